@@ -332,6 +332,22 @@ def expect_values(pairs, keep, key):
     return [v for k, v in pairs if k == key and (keep or v != "")]
 
 
+def none_blank_trio(vals):
+    """exactly the case class 'a kept blank form value is None': what the
+    trio answers when every '' among the values is replaced by None (getlist
+    is derived from getvalue: list -> itself, None -> [], other -> [it])"""
+    vs = [v or None for v in vals]
+    value = None if not vs else vs[0] if len(vs) == 1 else vs
+    first = vs[0] if vs else None
+    if isinstance(value, list):
+        lst = value
+    elif value is None:
+        lst = []
+    else:
+        lst = [value]
+    return [value, first, lst]
+
+
 def check_container(ctx, where, trio, as_item, pairs, keep, key, replay):
     """trio = (getvalue, getfirst, getlist) seen; as_item = container[key]
     or Exn('missing')"""
@@ -353,7 +369,7 @@ def check_container(ctx, where, trio, as_item, pairs, keep, key, replay):
     if bad is None:
         return True
     blank = keep and any(k == key and v == "" for k, v in pairs)
-    if where == "form" and blank:
+    if where == "form" and blank and list(trio) == none_blank_trio(vals):
         name = "form-kept-blank-is-none"
     else:
         name = "%s-value-mismatch" % where
@@ -400,7 +416,7 @@ def run(ctx):
     # (i) query string / urlencoded body through a real Request
     cases = []
     maxlen = 4 if quick else 8
-    per_len = 28 if quick else 160
+    per_len = 30 if quick else 320
     for n in range(0, maxlen + 1):
         for rep in range(per_len if n else 2):
             pairs = gen_pairs(rng, n)
@@ -413,13 +429,18 @@ def run(ctx):
                 else:
                     query = alt_encode(rng, pairs, style)
                     body = alt_encode(rng, pairs, style)
-                env = environ(method=("POST", "PUT", "PATCH")[rep % 3],
+                method = ("POST", "PUT", "PATCH", "GET", "DELETE")[rep % 5]
+                if method in ("GET", "DELETE"):     # bodiless
+                    body = ""
+                env = environ(method=method,
                               query=query, body=body.encode("ascii"),
-                              content_type=URLENC)
+                              content_type=URLENC if body else None)
                 ans, seen = probe.request(env, keys, keep_blank_values=keep)
+                ctx.count("method=%s" % method)
                 replay = {"pairs": pairs, "keep_blank_values": keep,
-                          "QUERY_STRING": query, "body": body,
-                          "content_type": URLENC}
+                          "method": method, "QUERY_STRING": query,
+                          "body": body,
+                          "content_type": URLENC if body else None}
                 ctx.count("pairs len=%d" % n)
                 ctx.count("encoding=%s" % style)
                 if seen is None:
@@ -452,12 +473,18 @@ def run(ctx):
                         good &= check_container(
                             ctx, "form", seen["form_trio"][idx], None, pairs,
                             keep, key, replay)
+                if not body and (seen["form_type"] != "EmptyForm" or
+                                 seen["json_type"] != "EmptyForm"):
+                    ctx.violation("bodiless-request-has-form", dict(
+                        replay, form=seen["form_type"],
+                        json=seen["json_type"]))
                 if body and seen["form"] is not None:
                     want = [(k, v) for k, v in pairs if keep or v != ""]
                     if seen["form"] != want:
-                        blank = keep and any(v == "" for _, v in pairs)
+                        shape = [(k, v or None) for k, v in want]
                         ctx.violation(
-                            "form-kept-blank-is-none" if blank
+                            "form-kept-blank-is-none"
+                            if keep and seen["form"] == shape
                             else "form-value-mismatch",
                             dict(replay, got=repr(seen["form"]),
                                  want=repr(want)))
@@ -489,7 +516,7 @@ def run(ctx):
 
     # hostile stream: arbitrary query strings / bodies (invalid escapes,
     # broken UTF-8, whitespace, empty pieces)
-    nhost = 250 if quick else 2500
+    nhost = 250 if quick else 5000
     for i in range(nhost):
         query = gen_hostile(rng)
         body = gen_hostile_body(rng)
@@ -530,7 +557,7 @@ def run(ctx):
     # ------------------------------------------------------------------
     # JSON: depth <= 3, utf-8 and declared charsets
     jcases = []
-    njson = 150 if quick else 1500
+    njson = 150 if quick else 3000
     fixed = [None, True, 0, "", [], {}, [[]], {"k": []}, {"k": {}},
              {"k": [1, 2]}, {"k": None}, ["\xe9"], {"\xe9": "€"},
              [[["deep"]]], {"a": {"b": {"c": 1}}}, "\U0001f600", 1.5, [None]]
@@ -733,6 +760,8 @@ def run(ctx):
             if variant in ("multipart", "urlencoded", "json") and \
                     (count % 3 == 0 or not quick):
                 declared.append(size - 9)     # short declared length
+            if kind == 1 and (count % 2 == 0 or not quick):
+                declared.append(size // 3)    # cut inside the first part
             if count % 7 == 0:
                 declared.append(0)
             if count % 11 == 0:
@@ -758,11 +787,23 @@ def run(ctx):
                           "requests_on_wsgi_input": stream.log[:12],
                           "status": ans.status}
                 ctx.count("plan %s" % variant)
+                if ans.code == 500 and kind == 2 and plain_in_form:
+                    # outside the property: a configured form type that is
+                    # neither urlencoded nor multipart always fails
+                    # (read_binary writes bytes into a text-mode temp file)
+                    ctx.count("note: single-part form type answered 500")
                 limit = max(0, clen if clen is not None else 0)
                 # ---- monitor: never read beyond the declared length
                 if stream.pos > limit:
-                    raw_multi = (ctype or "").startswith("multipart/") and \
-                        cached_size == 0 and \
+                    # the known finding, exactly: the line parser
+                    # (multipart, or a single part without length) runs on
+                    # the raw stream: cached_size = 0 and body not buffered
+                    buffered = adata and clen is not None and \
+                        0 <= clen <= data_size
+                    line_kind = (ctype or "").startswith("multipart/") or \
+                        (kind == 2 and clen is None)
+                    raw_multi = line_kind and cached_size == 0 and \
+                        not buffered and aform and \
                         any(op == "readline" for op, _, _ in stream.log)
                     ctx.violation(
                         "multipart-raw-stream-reads-past-content-length"
